@@ -25,6 +25,7 @@ preserved when arguments are substituted for parameters).  Nothing here decides 
 from __future__ import annotations
 
 import ast
+import copy
 import os
 from typing import Dict, List, Optional
 
@@ -338,6 +339,16 @@ def _canon_stmt(s, fresh=None) -> list:
         for t, v in zip(s.targets[0].elts, s.value.elts):
             parts.extend(_canon_stmt(at(ast.Assign(targets=[ast.Name(id=t.id, ctx=ast.Store())], value=v), s), fresh))
         return parts
+    # head, _, _ = E  ->  head = E[0]   (targets named `_` are never read)
+    if isinstance(s, ast.Assign) and len(s.targets) == 1 and isinstance(s.targets[0], ast.Tuple) and not isinstance(s.value, (ast.Tuple, ast.List)) \
+            and all(isinstance(t, ast.Name) for t in s.targets[0].elts):
+        used = [(k, t) for k, t in enumerate(s.targets[0].elts) if t.id not in ('_', '__')]
+        if len(used) == 1 and isinstance(s.value, ast.Call) and isinstance(s.value.func, ast.Attribute) \
+                and s.value.func.attr in ('partition', 'rpartition', 'split', 'rsplit', 'groups', 'span'):
+            k, t = used[0]
+            idx = k if s.value.func.attr in ('partition', 'rpartition') or k == 0 else k - len(s.targets[0].elts)
+            return _canon_stmt(at(ast.Assign(targets=[ast.Name(id=t.id, ctx=ast.Store())],
+                                             value=ast.Subscript(value=s.value, slice=ast.Constant(value=idx), ctx=ast.Load())), s), fresh)
     inherit = fresh if isinstance(s, (ast.If, ast.Try, ast.With)) else None
     # expressions of this statement
     for field, value in ast.iter_fields(s):
@@ -1244,10 +1255,28 @@ class Normalizer:
     def bind(self, call: ast.Call, target: FuncInfo, recv, fi: FuncInfo):
         """-> mapping parameter name -> argument expression, or None when the call shape is not modelled."""
         a = target.node.args
-        if a.vararg or a.kwarg:
+        if a.kwarg:
             return None
         if any(isinstance(x, ast.Starred) for x in call.args) or any(k.arg is None for k in call.keywords):
             return None
+        if a.vararg:
+            # f(x, *rest) called with plain positional arguments: rest is the tuple of the surplus ones
+            n_pos = len(a.posonlyargs + a.args) - (1 if target.kind in ('method', 'classmethod') and target.cls is not None and target.outer is None else 0)
+            if len(call.args) < n_pos or any(k.arg in [x.arg for x in a.posonlyargs + a.args] for k in call.keywords):
+                return None
+            inner = clone(call)
+            rest = inner.args[n_pos:]
+            inner.args = inner.args[:n_pos]
+            shadow = copy.copy(target)
+            shadow_node = copy.copy(target.node)
+            shadow_node.args = copy.copy(a)
+            shadow_node.args.vararg = None
+            shadow.node = shadow_node
+            mapping = self.bind(inner, shadow, recv, fi)
+            if mapping is None:
+                return None
+            mapping[a.vararg.arg] = ast.Tuple(elts=rest, ctx=ast.Load())
+            return mapping
         pos = [x.arg for x in a.posonlyargs + a.args]
         mapping: Dict[str, ast.AST] = {}
         if target.kind in ('method', 'classmethod') and target.cls is not None and target.outer is None:
@@ -2058,7 +2087,15 @@ class Normalizer:
 
     def unroll_block(self, stmts: list, fi: FuncInfo) -> list:
         out = []
+        displays = {}       # names bound, in this block, to a display of names / constants (a parameter pack of an inlined helper)
         for s in stmts:
+            if isinstance(s, ast.For) and isinstance(s.iter, ast.Name) and s.iter.id in displays:
+                s.iter = clone(displays[s.iter.id])
+            nm, val = _single_name_assign(s)
+            for x in stores_in([s]):
+                displays.pop(x, None)
+            if nm is not None and isinstance(val, (ast.Tuple, ast.List)) and all(_atomic(e) for e in val.elts):
+                displays[nm] = val
             if isinstance(s, (ast.FunctionDef, ast.AsyncFunctionDef, ast.ClassDef)):
                 out.append(s)
                 continue
